@@ -375,7 +375,19 @@ def ri1(W, tag=''):
         for k in range(W.D):
             tot = z3.IntVal(0)
             for an, app in srv.apps.items():
-                tot = tot + S.z(app.demand[k])
+                dem = app.demand
+                # the declared demand (harness variable), not what the
+                # object says now
+                hd = getattr(W, 'demand', None)
+                if isinstance(hd, list):
+                    idx = int(an[-10:])
+                    if idx < len(hd):
+                        dem = hd[idx]
+                        S.check('C01:declared_demand_changed_by_scheduler'
+                                + tag,
+                                S.z(app.demand[k]) == S.z(dem[k]),
+                                {'app': an, 'dim': k})
+                tot = tot + S.z(dem[k])
             S.check('C01:free_equals_capacity_minus_sum' + tag,
                     S.z(srv.free_capacity[k]) ==
                     S.z(srv.init_capacity[k]) - tot,
@@ -391,6 +403,15 @@ def ri1(W, tag=''):
                     app.server == name, {'app': an, 'server': name})
             S.check('C01:server_lists_unscheduled_instance' + tag,
                     W.cell.apps.get(an) is app, {'app': an})
+    hd = getattr(W, 'demand', None)
+    if isinstance(hd, list):
+        for an, app in W.cell.apps.items():
+            idx = int(an[-10:])
+            if idx < len(hd):
+                for k in range(W.D):
+                    S.check('C01:declared_demand_changed_by_scheduler' + tag,
+                            S.z(app.demand[k]) == S.z(hd[idx][k]),
+                            {'app': an, 'dim': k})
     for an, app in W.cell.apps.items():
         if app.server is not None and app.server in mem:
             S.check('C01:instance_points_to_server_not_listing_it' + tag,
